@@ -163,6 +163,18 @@ CLAIMED = {
          'configuration by C04/C01. NEON not available on this host.',
     technique='TLC trace validation of a configuration-independence specification over ~120 build/CPU/back-end/plan configurations',
     design='4/C07'),
+ 'C17': dict(
+    category='model_checking',
+    text='PlanCache.tla models get-or-generate as the code does it (lookup critical section, unlocked generation, insert critical '
+         'section with second look-up, FIFO eviction). TLC explores all interleavings of 3 threads x 2 requests exhaustively '
+         '(Bounded, Bijection, RightPlanCached, Transparent) and prints every interleaving of three concurrent requests against a '
+         'cache pre-filled to 63 and 64 plans; each of the ~2000 schedules is forced on real threads through the yield hook and map, '
+         'FIFO and plan identities are compared after every critical section. Free-running 16-thread executions are logged under the '
+         'mutex and validated by TLC as behaviours of the same spec.',
+    note='Trusted: TLC; hook placement (yield immediately before lock(), event while the mutex is held). Forced schedules cover 3 '
+         'threads / one request each on the real cache; larger mixes only free-running.',
+    technique='TLC exhaustive interleaving model + TLC-generated schedules forced on real threads + TLC trace validation of concurrent logs',
+    design='4/C17'),
 }
 
 NOT_YET = 'check not built yet in this round (work in progress; see DESIGN.md section 8 for the order of work)'
@@ -214,7 +226,7 @@ def main():
 
 
 NA = {}
-HOOK_COMMITS = ['7b4caa9', '4fb854c', '324160c', '780b1b4', 'dc24c31']
+HOOK_COMMITS = ['7b4caa9', '4fb854c', '324160c', '780b1b4', 'dc24c31', '492f3d7']
 FIX_COMMITS = ['e1f7f98', '497f892', 'c3da831', 'ae71c22']
 
 if __name__ == '__main__':
